@@ -5,7 +5,7 @@ Import ListNotations.
 Require Import EV.model.Term EV.proofs.TermP EV.model.GroupIds EV.proofs.GroupIdsP EV.proofs.OrphanP EV.gen.Facts.
 Close Scope Z_scope. Open Scope nat_scope.
 
-Lemma C05_cfg_ok : term_wait_mult = 2 /\ term_safe_terminate_ok = true /\ term_terminate_ok = true /\ term_loop_joins_pending = true /\ full_ok group_cfg.
+Lemma C05_cfg_ok : term_wait_mult = 2 /\ term_safe_terminate_ok = true /\ term_terminate_ok = true /\ term_loop_joins_pending = true /\ term_vias_count_tojoin = true /\ full_ok group_cfg.
 Proof. repeat split; reflexivity. Qed.
 
 (* whatever the members do -- never coming down, a kill function that hangs -- the waiting inside one pass of terminate
@@ -36,15 +36,26 @@ Print Assumptions C05_group_empty.
 
 (* ... also when some gateways had been exit()ed by the user before: afterwards the group is empty, nothing is left to join, and every
    gateway that was a member or was waiting to be joined has gone through safe_terminate (join, or kill after the time-out) *)
-Theorem C05_joins_everything : forall fuel s, wf_forest (members s) -> length (members s) + 1 < fuel ->
-  let s' := terminate_loop term_loop_joins_pending fuel s in
-  members s' = [] /\ tojoin s' = [] /\ (forall i, In i (joined s) \/ In i (tojoin s) \/ In i (map gid (members s)) -> In i (joined s')).
-Proof. exact terminate_joins_everything. Qed.
+Definition term_cfg : tcfg := {| joins_pending := term_loop_joins_pending; vias_count_tojoin := term_vias_count_tojoin |}.
+Theorem C05_joins_everything : forall fuel s, wf_forest (members s) -> tmeasure s < fuel ->
+  let s' := terminate_loop term_cfg fuel s in
+  members s' = [] /\ tojoin s' = [] /\ (forall i, In i (joined s) \/ In i (map gid (tojoin s)) \/ In i (map gid (members s)) -> In i (joined s')).
+Proof. exact (terminate_joins_everything term_cfg eq_refl). Qed.
 Print Assumptions C05_joins_everything.
-(* with the loop condition `while self:` alone the statement is false *)
-Theorem C05_forgets_exited_refuted : exists s, members s = [] /\ tojoin (terminate_loop false 5 s) <> [] /\ joined (terminate_loop false 5 s) = [].
+(* ... and the join / wait / kill of a proxied gateway always travel through a LIVE via gateway: no gateway is exited in a pass in which
+   a gateway routed through it is still to be joined or is exited in that same pass *)
+Theorem C05_joined_through_live_via : forall s x y, In x (exiting term_cfg s) -> In y (tojoin s ++ exiting term_cfg s) -> via y <> Some (gid x).
+Proof. intros s x y. exact (joined_through_live_via term_cfg s x y eq_refl). Qed.
+Print Assumptions C05_joined_through_live_via.
+(* with the loop condition `while self:` alone, resp. with the vias collected over the members only, the statements are false *)
+Theorem C05_forgets_exited_refuted : exists s, members s = [] /\
+  tojoin (terminate_loop {| joins_pending := false; vias_count_tojoin := true |} 5 s) <> [] /\
+  joined (terminate_loop {| joins_pending := false; vias_count_tojoin := true |} 5 s) = [].
 Proof. exact terminate_forgets_exited_refuted. Qed.
-Example C05_joins_witness : let s' := terminate_loop term_loop_joins_pending 9 {| members := [{| gid := 1; via := None |}; {| gid := 2; via := Some 1 |}]; tojoin := [7]; joined := [] |} in
+Theorem C05_via_exited_too_early_refuted : exists s x y, wf_forest (members s) /\
+  In x (exiting {| joins_pending := true; vias_count_tojoin := false |} s) /\ In y (tojoin s) /\ via y = Some (gid x).
+Proof. exact via_exited_too_early_refuted. Qed.
+Example C05_joins_witness : let s' := terminate_loop term_cfg 9 {| members := [{| gid := 1; via := None |}; {| gid := 2; via := Some 1 |}]; tojoin := [{| gid := 7; via := Some 1 |}]; joined := [] |} in
   members s' = [] /\ tojoin s' = [] /\ joined s' = [7; 2; 1].
 Proof. vm_compute. repeat split. Qed.
 
@@ -52,7 +63,7 @@ Proof. vm_compute. repeat split. Qed.
    makegateway calls (explicit or automatic ids, repeated or not) and exits, no call fails after its worker exists *)
 Theorem C05_no_orphan : forall wants ops t,
   nth_error (thr (fold_left (sstep group_cfg) ops (init wants))) t <> Some (Failed true).
-Proof. intros wants ops. exact (no_orphan_sequential group_cfg wants ops (proj2 (proj2 (proj2 (proj2 C05_cfg_ok))))). Qed.
+Proof. intros wants ops. exact (no_orphan_sequential group_cfg wants ops (proj2 (proj2 (proj2 (proj2 (proj2 C05_cfg_ok)))))). Qed.
 Print Assumptions C05_no_orphan.
 
 (* the pinned tree (no test in allocate_id) leaked on the second of two calls with one id; overlapping calls still do *)
